@@ -80,7 +80,8 @@ CALLS = {
 }
 ELEMWISE1 = {"np.sqrt": "nsqrt N", "np.abs": "nabs N", "np.sign": "nsign N", "np.exp": "nexp N", "np.log": "nln N"}
 BINOPS = {ast.Add: "add", ast.Sub: "sub", ast.Mult: "mul", ast.Div: "div"}
-ZBINOPS = {ast.Add: "Z.add", ast.Sub: "Z.sub", ast.Mult: "Z.mul", ast.FloorDiv: "Z.div", ast.Mod: "Z.modulo"}
+ZBINOPS = {ast.Add: "Z.add", ast.Sub: "Z.sub", ast.Mult: "Z.mul", ast.FloorDiv: "Z.div", ast.Mod: "Z.modulo",
+           ast.BitAnd: "Z.land", ast.BitOr: "Z.lor", ast.BitXor: "Z.lxor", ast.LShift: "Z.shiftl", ast.RShift: "Z.shiftr"}
 
 
 def dotted(node):
@@ -302,6 +303,8 @@ class FnTranslator:
             raise Unsupported("matrix / int-array arithmetic")
         if isinstance(n.op, ast.Div):
             return "(div N %s %s)" % (self.coerce(a, ta, F), self.coerce(b, tb, F)), F
+        if ta == B and tb == B and isinstance(n.op, (ast.BitAnd, ast.BitOr, ast.BitXor)):
+            return "(%s %s %s)" % ({ast.BitAnd: "andb", ast.BitOr: "orb", ast.BitXor: "xorb"}[type(n.op)], a, b), B
         t = self.join(ta, tb)
         if t == B:
             t = I
@@ -468,6 +471,8 @@ class FnTranslator:
             info = self.module_fns[name]
             if kw:
                 raise Unsupported("keyword call of " + name)
+            if info.get("mutates"):
+                raise Unsupported("call of %s, which mutates its argument" % name)
             if len(n.args) != len(info["args"]):
                 raise Unsupported("call of %s with defaults" % name)
             args = []
@@ -499,7 +504,12 @@ class FnTranslator:
             return self.var(names[0])
         return "'(" + ", ".join(self.var(n) for n in names) + ")"
 
-    def ret(self, e, t):
+    def ret(self, e, t, env=None):
+        if self.ret_wrap and t == I:
+            e = "(%s %s)" % (self.ret_wrap, e)
+        if self.mutated:
+            e = "(" + ", ".join([e] + [self.var(m) for m in self.mutated]) + ")"
+            t = (t,) + tuple(env[m] for m in self.mutated)
         self.note_ret(t)
         return "(Some %s)" % e if self.has_raise else e
 
@@ -526,9 +536,11 @@ class FnTranslator:
                 raise Unsupported("bare return")
             if isinstance(s.value, ast.Tuple):
                 parts = [self.expr(e, env) for e in s.value.elts]
-                return self.ret("(" + ", ".join(p[0] for p in parts) + ")", tuple(p[1] for p in parts))
+                if self.mutated:
+                    raise Unsupported("tuple return from a function that mutates an argument")
+                return self.ret("(" + ", ".join(p[0] for p in parts) + ")", tuple(p[1] for p in parts), env)
             e, t = self.expr(s.value, env)
-            return self.ret(e, t)
+            return self.ret(e, t, env)
         if isinstance(s, ast.Raise):
             return "None"
         if isinstance(s, ast.Assign):
@@ -855,6 +867,30 @@ class FnTranslator:
             env[arg.arg] = t
             params.append((arg.arg, t))
         self.ret_type = None
+        # argument arrays the body stores into are part of the result (Python mutates the caller's array)
+        stores = set()
+        for x in ast.walk(fn):
+            if isinstance(x, (ast.Assign, ast.AugAssign)):
+                for t in (x.targets if isinstance(x, ast.Assign) else [x.target]):
+                    if isinstance(t, ast.Subscript) and isinstance(t.value, ast.Name):
+                        stores.add(t.value.id)
+            elif isinstance(x, ast.Assign):
+                pass
+        rebound = {t.id for x in ast.walk(fn) if isinstance(x, ast.Assign) for t in x.targets if isinstance(t, ast.Name)}
+        self.mutated = [n for n, _ in params if n in stores]
+        if set(self.mutated) & rebound:
+            raise Unsupported("argument array both mutated and rebound")
+        # numba explicit signature "i4(...)": the int result is wrapped to int32
+        self.ret_wrap = None
+        for d in fn.decorator_list:
+            if isinstance(d, ast.Call) and d.args and isinstance(d.args[0], ast.Constant) and isinstance(d.args[0].value, str):
+                sig = d.args[0].value.replace(" ", "")
+                if sig.startswith("i4("):
+                    self.ret_wrap = "wrap32"
+                elif sig.startswith(("i8(", "f4(", "f8(")):
+                    pass
+                else:
+                    raise Unsupported("numba signature " + sig)
 
         def fall_off(e2):
             raise Unsupported("function may end without return")
@@ -863,14 +899,14 @@ class FnTranslator:
         head = "Definition src_%s (N : Num)%s %s : %s :=\n" % (
             fn.name, " (E : PyExt N)" if self.uses_ext else "",
             " ".join("(%s : %s)" % (self.var(n), coq_type(t)) for n, t in params), coq_type(rt))
-        return head + body + ".\n", {"args": params, "ret": rt, "ext": self.uses_ext}
+        return head + body + ".\n", {"args": params, "ret": rt, "ext": self.uses_ext, "mutates": self.mutated}
 
 
 COQ_RESERVED = {"at", "as", "in", "fun", "let", "match", "end", "with", "then", "else", "if", "return", "forall", "exists", "fix", "cofix",
                 "Type", "Prop", "Set", "N", "E", "S", "O", "T", "I", "using", "where", "for", "IF", "mod", "div", "add", "sub", "mul", "neg",
                 "zero", "one", "exp", "ln", "sqrt", "max", "min", "length", "nth", "map", "filter", "rev", "seq", "repeat", "fst", "snd",
                 "pair", "list", "bool", "nat", "Z", "R", "true", "false", "None", "Some", "option", "tt", "unit", "id", "eq", "le", "lt", "ge", "gt"}
-DEFAULT_ARG_TYPES = {"x": V, "y": V, "u": V, "v": V, "p": F, "sigma": V, "w": V, "vinv": M, "a": F, "z": F}
+DEFAULT_ARG_TYPES = {"x": V, "y": V, "u": V, "v": V, "p": F, "sigma": V, "w": V, "vinv": M, "a": F, "z": F, "val": F, "vec": V}
 
 
 def module_functions(path):
